@@ -76,7 +76,7 @@ LEVEL_NOTE = ("Trusted: TensorFlow/NumPy arithmetic, the harness.  Tolerance "
 
 # Tuple spellings of lattice_sizes / per-dimension amounts are documented
 # ("list or tuple") and therefore generated.
-TUPLE_SPELLINGS = False
+TUPLE_SPELLINGS = True
 
 AMOUNTS = [0.5, 1.0, 1.0, 2.0, 1e-3, 0.01, 10.0, 0.3]
 FACTORS = [0.25, 0.5, 2.0, 3.0, 10.0]
@@ -427,6 +427,7 @@ def run_case(case):
 
   # ---- value against the float64 reference
   rv, rmag, nterms = ref(l1, l2)
+  rv, rmag = float(rv), float(rmag)
   try:
     total = lib(l1, l2)
   except TypeError as e:
